@@ -25,6 +25,11 @@ var solvers = []solverSpec{
 		return []string{"cvc5", "--produce-models", fmt.Sprintf("--tlimit=%d", t*1000), f}
 	}, "(set-logic ALL)\n"},
 	{"z3", func(f string, t int) []string { return []string{"z3", fmt.Sprintf("-T:%d", t), f} }, ""},
+	// cvc5 with bit-vectors translated to integer arithmetic: decides linear 64-bit index
+	// arithmetic that bit-blasting solvers need many seconds for
+	{"cvc5-int", func(f string, t int) []string {
+		return []string{"cvc5", "--produce-models", "--solve-bv-as-int=sum", fmt.Sprintf("--tlimit=%d", t*1000), f}
+	}, "(set-logic ALL)\n"},
 }
 
 var unsafeName = regexp.MustCompile(`[^A-Za-z0-9_.#-]+`)
